@@ -156,7 +156,23 @@ def opr_harness(name):
 EPS = Fraction(2) ** -52
 
 
-def gains_harness(nrule, nfuzz, opr, shapes, partition, shared):
+def div(a, b):
+    if isinstance(a, (Fraction, int)) and isinstance(b, (Fraction, int)):
+        return Fraction(a) / Fraction(b)
+    return R(a) / R(b)
+
+
+def _opr(py, sym):
+    return lambda conc, a, b: py(Fraction(a), Fraction(b)) if conc else sym(R(a), R(b))
+
+
+REF_OPR = {"cap": _opr(min, lambda a, b: z3.If(a < b, a, b)), "cap_algebra": _opr(lambda a, b: a * b, lambda a, b: a * b),
+           "cap_bounded": _opr(lambda a, b: max(a + b - 1, Fraction(0)), lambda a, b: z3.If(a + b - 1 > 0, a + b - 1, 0)),
+           "cup": _opr(max, lambda a, b: z3.If(a > b, a, b)), "cup_algebra": _opr(lambda a, b: a + b - a * b, lambda a, b: a + b - a * b),
+           "cup_bounded": _opr(lambda a, b: min(a + b, Fraction(1)), lambda a, b: z3.If(a + b < 1, a + b, 1))}
+
+
+def gains_harness(nrule, nfuzz, opr, shapes, partition, shared, regions=False):
     def h(ex):
         tr = Tr(ex, "")
         set_mode(ex)
@@ -169,9 +185,47 @@ def gains_harness(nrule, nfuzz, opr, shapes, partition, shared):
         for n in ("outmax", "summax"):
             tr.store(c.ctx + 8 * PID_F.index(n), Fraction(10), 8, isfloat=True)
         s, f = ex.fresh_real("set"), ex.fresh_real("fdb")
+        # previous error: with a symbolic one, error and error change are independent inputs and may activate different numbers of sets
+        err0 = ex.fresh_real("err0") if regions else ZERO
+        tr.store(c.ctx + 8 * PID_F.index("err"), err0, 8, isfloat=True)
+        e_ = sub(s, f)
+        ec_ = sub(e_, err0)
+        deg = {"me": [], "mec": []}
+        if regions:
+            # the harness fixes, per input and triangle, where the input lies: left of the support, rising flank, falling flank
+            # (peak included), right of the support; degrees on the flanks are above A_REAL_EPSILON (smaller ones are ignored by the controller)
+            for which, x in (("me", e_), ("mec", ec_)):
+                for i in range(nrule):
+                    sh, (pa, pb, pc) = c.sets[which][i]
+                    k = ex.pick([0, 1, 2, 3], "region_%s%d" % (which, i))
+                    if k == 0:
+                        ex.assume(rle(x, pa)); m = None
+                    elif k == 1:
+                        ex.assume(conj([rlt(pa, x), rlt(x, pb)])); m = div(sub(x, pa), sub(pb, pa))
+                    elif k == 2:
+                        ex.assume(conj([rle(pb, x), rlt(x, pc)])); m = div(sub(pc, x), sub(pc, pb))
+                    else:
+                        ex.assume(rle(pc, x)); m = None
+                    if m is not None:
+                        ex.assume(rlt(EPS, m))
+                    deg[which].append(m)
+                if nfuzz < nrule and sum(1 for m in deg[which] if m is not None) > nfuzz:
+                    raise core.Infeasible()         # the buffer is documented to hold nfuzz simultaneously active sets
         tr.call("a_pid_fuzzy_pos", c.ctx, s, f, ret="f64")       # any access outside the exact-size scratch buffer is a MEM finding
         st = get_pid(ex, c.ctx)
-        e_, ec_ = sub(s, f), sub(s, f)                            # previous error is 0 in the fresh controller
+        # the degrees the controller stored in its scratch buffer, in the order of the active sets
+        vals, lem = [], []
+        if regions:
+            act = [m for m in deg["me"] if m is not None]
+            if act:
+                act = act + [m for m in deg["mec"] if m is not None]
+            vbase = c.buf + 2 * 4 * nfuzz
+            for k, m in enumerate(act):
+                v = ex.load(vbase + 8 * k, F64)
+                ex.check(req(v, m), "pid_fuzzy:stored-degree-%d-is-not-the-membership-of-the-active-set" % k)
+                ex.check(z3.And(R(v) > EPS, R(v) <= 1), "pid_fuzzy:stored-degree-%d-outside-(eps,1]" % k)
+                vals.append(v)
+                lem.append(z3.And(R(v) > EPS, R(v) <= 1))
         for g, tab in ((("kp", "mkp"), ("ki", "mki"), ("kd", "mkd")) if nrule == 2 else ()):   # order 3: buffer clause only
             d = sub(st[g], c.base[g])
             cons = c.tabs[tab].v
@@ -180,22 +234,38 @@ def gains_harness(nrule, nfuzz, opr, shapes, partition, shared):
                 lo = z3.If(R(v) < R(lo), R(v), R(lo))
                 hi = z3.If(R(v) > R(hi), R(v), R(hi))
             # base + weighted mean of consequents (or base alone when nothing fired): inside [min, max] of the table, or exactly the base
-            ex.check(z3.Or(R(d) == 0, z3.And(R(lo) <= R(d), R(d) <= R(hi))), "pid_fuzzy:scheduled-%s-outside-the-range-of-the-rule-consequents" % g)
-        # reference weighted mean for the product operator (order 2, every set a triangle)
-        if opr == "cap_algebra" and all(sh == "tri" for sh in shapes) and ex.concrete is None and nrule == 2:
-            # the controller ignores degrees not above A_REAL_EPSILON: compare only where every degree is 0 or above it
-            for which in ("me", "mec"):
-                for i in range(nrule):
-                    m = c.membership(which, i, e_)
-                    ex.assume(z3.Or(m == 0, m > EPS))
-            num, den = ZERO, ZERO
+            ex.check_abs(z3.Or(R(d) == 0, z3.And(R(lo) <= R(d), R(d) <= R(hi))), "pid_fuzzy:scheduled-%s-outside-the-range-of-the-rule-consequents" % g, vals, lemmas=lem)
+        # reference weighted mean over the rule table for the operators with a closed form (every set a triangle);
+        # the position of each input relative to each triangle was fixed by the harness before the call (region picks),
+        # so the reference degrees are plain rational expressions on this path; the identity itself is decided on a
+        # generalisation in which the degrees are free variables (check_abs), the exact query being the fallback
+        if opr in REF_OPR and regions:
+            conc = ex.concrete is not None
+            it = iter(vals)
+            me = [None if m is None else next(it, None) for m in deg["me"]]
+            mec = [None if m is None else next(it, None) for m in deg["mec"]]
+            den = ZERO
+            w = {}
             for i in range(nrule):
                 for j in range(nrule):
-                    w = c.membership("me", i, e_) * c.membership("mec", j, ec_)
-                    num = num + w * R(c.tabs["mkp"].v[i * nrule + j])
-                    den = den + w
-            ex.check(z3.Implies(den > 0, R(st["kp"]) == R(c.base["kp"]) + num / den), "pid_fuzzy:kp-is-not-base-plus-the-weighted-mean-of-the-consequents")
-            ex.check(z3.Implies(den == 0, R(st["kp"]) == R(c.base["kp"])), "pid_fuzzy:kp-is-not-the-base-gain-when-no-rule-fires")
+                    # a rule takes part only if both of its sets are active (the union operators are positive with one active set)
+                    w[i, j] = REF_OPR[opr](conc, me[i], mec[j]) if (me[i] is not None and mec[j] is not None) else ZERO
+                    den = add(den, w[i, j])
+            for g, tab in (("kp", "mkp"), ("ki", "mki"), ("kd", "mkd")):
+                num = ZERO
+                for i in range(nrule):
+                    for j in range(nrule):
+                        num = add(num, mul(w[i, j], c.tabs[tab].v[i * nrule + j]))
+                lab1 = "pid_fuzzy:%s-is-not-base-plus-the-weighted-mean-of-the-consequents" % g
+                lab0 = "pid_fuzzy:%s-is-not-the-base-gain-when-no-rule-fires" % g
+                if conc:
+                    if den > 0:
+                        ex.check(req(mul(st[g], den), add(mul(c.base[g], den), num)), lab1)
+                    else:
+                        ex.check(req(st[g], c.base[g]), lab0)
+                else:
+                    ex.check_abs(z3.Implies(R(den) > 0, R(st[g]) * R(den) == R(c.base[g]) * R(den) + R(num)), lab1, vals, lemmas=lem)
+                    ex.check_abs(z3.Implies(R(den) == 0, R(st[g]) == R(c.base[g])), lab0, vals, lemmas=lem)
     return h
 
 
@@ -204,7 +274,7 @@ def builder(p):
         return "mf/%s/%s" % (p[1], p[2]), mf_harness(p[1], p[2])
     if p[0] == "opr":
         return "operator/" + p[1], opr_harness(p[1])
-    return "gains/order%d-buf%d/%s/%s%s" % (p[1], p[2], p[3], "+".join(p[4]), "/shared-table" if p[6] else ""), gains_harness(*p[1:])
+    return "gains/order%d-buf%d/%s/%s%s%s" % (p[1], p[2], p[3], "+".join(p[4]), "/shared-table" if p[6] else "", "/regions" if len(p) > 7 and p[7] else ""), gains_harness(*p[1:])
 
 
 def main():
@@ -229,19 +299,24 @@ def main():
         inst.append(("opr", o))
     for opr in fuzzyctl.OPRS:
         inst.append(("gains", 2, 2, opr, ("tri", "tri"), False, True))
-        if T == "thorough":
-            inst.append(("gains", 2, 2, opr, ("tri", "tri"), False, False))
+    # separate set tables, independent error / error change (symbolic previous error), every position of both inputs relative to
+    # every triangle, reference weighted mean for all three gains: the product operator in the quick tier, all closed-form operators in the thorough one
+    inst.append(("gains", 2, 2, "cap_algebra", ("tri", "tri"), False, False, True))
+    deep = ([("gains", 2, 2, o, ("tri", "tri"), False, False, True) for o in ("cap", "cap_bounded", "cup", "cup_algebra", "cup_bounded")] + [("gains", 3, 2, "cap_algebra", ("tri", "tri", "tri"), True, False, True)]) if T == "thorough" else []
     inst.append(("gains", 3, 2, "cap_algebra", ("tri", "tri", "tri"), True, True))      # buffer sized for the two simultaneously active sets
     srcs = ["mf.c", "fuzzy.c", "pid_fuzzy.c", "pid.c", "math.c", "a.c"]
     e2.run_e2(res, cfg, srcs, inst, builder, group="real", validate_every=3, tol=1e-6, exec_attrs={"force_solver": True},
               exec_opts={"solver": "nra", "timeout_ms": 120000}, time_budget=500 if T == "quick" else 3000,
               sigmap=lambda n: "/".join(n.split("/")[:3]))
+    if deep:
+        e2.run_e2(res, cfg, srcs, deep, builder, group="real-deep", validate_every=2, tol=1e-6, exec_attrs={"force_solver": True},
+                  exec_opts={"solver": "nra", "timeout_ms": 120000}, time_budget=4000, sigmap=lambda n: "/".join(n.split("/")[:3]), droppable=True)
     res.functions.update(["a_mf"] + ["a_mf_" + f for f in MF_E] +
                          ["a_fuzzy_cap", "a_fuzzy_cap_algebra", "a_fuzzy_cap_bounded", "a_fuzzy_cup", "a_fuzzy_cup_algebra", "a_fuzzy_cup_bounded", "a_fuzzy_equ",
                           "a_pid_fuzzy_out_", "a_pid_fuzzy_mf", "a_pid_fuzzy_set_bfuzz"])
     res.bounds = {"membership functions": "all real inputs and parameter tuples (a <= b <= c <= d; non-zero widths for the smooth families; equal positive slopes and ordered centres for dsig); exp and general pow are uninterpreted with sign/monotonicity contracts, pow(u, 2) = u*u",
                   "operators": "all pairs of degrees in [0,1] (exact reals); min/max additionally bit-precise over all IEEE doubles in [0,1] (CBMC)",
-                  "gain scheduling": "rule bases of order 2 (buffer for 2 sets) and order 3 with a buffer for the 2 simultaneously active sets of a partition of triangles; scratch buffer is an exact-size object"}
+                  "gain scheduling": "rule bases of order 2 (buffer for 2 sets) and order 3 with a buffer for the 2 simultaneously active sets of a partition of triangles; scratch buffer is an exact-size object; 'regions' instances: separate set tables for error and error change, symbolic previous error (the two inputs activate different numbers of sets), all 4^4 positions of the inputs relative to the four triangles, all three gains compared with base + weighted mean over the rule table (product operator; thorough tier: all six closed-form operators, droppable); the mean identity is decided on a generalisation with the degrees as free variables (exact query as fallback)"}
     res.outside = ["bit-precise range of the membership functions (floating-point division circuits: no SAT verdict within 280 s, double or float) - decided in the reals instead; in IEEE the algebraic/bounded operators miss commutativity-style identities by an ulp, which is rounding",
                    "a_fuzzy_equ_ (general pow)", "accuracy of exp/pow", "rule bases of order above 3"]
     res.assumptions = ["floats as reals; EXP is positive, increasing, EXP(t) <= 1 iff t <= 0; POW(x, y) in [0,1] for x in [0,1], y >= 0"]
